@@ -1,4 +1,4 @@
-import DrummerVerif.Lemmas.Quiet
+import DrummerVerif.Lemmas.Cadence
 /-! Non-vacuity of `healed_fleet_stays_healed`: a concrete settled closed-loop state in which every member is running
     (one shard, one member on one NodeHost, the view at the group's version), and a concrete fault-free event sequence
     from it (a tick, the NodeHost's report, an execution); the model's `report` on that state is evaluated by the kernel. -/
@@ -47,6 +47,23 @@ theorem steps : QuietSteps ql (ql2.execute "a1") :=
     has stamped it with the new time (evaluated) -/
 theorem stays : (ql2.execute "a1").Settled ∧ (ql2.execute "a1").AllRunning :=
   let h := healed_fleet_stays_healed ql _ settled allRunning steps
+  ⟨h.1, h.2.1⟩
+
+/-- `quiet_window` on the same state: the member record is 0 old at time 5; a window with one tick, the report and a
+    scheduling round (no premise) fits under the timeout -/
+theorem fresh0 : ql.db.Fresh 0 := by
+  intro c hc r hr
+  simp [ql, qdb] at hc
+  subst hc
+  simp [qview] at hr
+  subst hr
+  decide
+
+theorem window : WindowSteps ql ql2 1 :=
+  .tail _ _ _ 1 0 (.tail _ _ _ 0 1 (.refl ql) (.tick ql qdb1 10 rfl)) (.report ql1 ql2 "a1" false 0 rfl)
+
+theorem windowQuiet : QuietSteps ql ql2 ∧ ql2.Settled :=
+  let h := quiet_window ql ql2 1 0 settled (by decide) fresh0 (by decide) (by decide) window
   ⟨h.1, h.2.1⟩
 
 example : ql2.db.image.shards.all (fun c => c.replicas.all (fun r => r.tick == 10)) = true := by decide
